@@ -93,6 +93,40 @@ func (h HdrSpec) valueClass() string {
 	return "bin-unpadded"
 }
 
+// strictTrailerFrame checks the gRPC-web trailer frame as sent: every line is
+// "key: value" with a lower-case token key, and the key set holds nothing but
+// the status keys and the trailer keys the handler set.
+func strictTrailerFrame(c *Case, o *Obs, add func(obs, cls, what string)) {
+	if o.WebKeys == nil {
+		return
+	}
+	cls := "plain-call"
+	if c.Gzip {
+		cls = "gzip-call"
+	}
+	allowed := map[string]bool{"grpc-status": true, "grpc-message": true, "grpc-status-details-bin": true}
+	for _, kv := range append(append([]KV{}, c.Script.Trl...), c.Script.TrlLate...) {
+		allowed[kv.K] = true
+	}
+	for _, k := range o.WebKeys {
+		tok := k != ""
+		for i := 0; i < len(k); i++ {
+			b := k[i]
+			if !(b >= 'a' && b <= 'z' || b >= '0' && b <= '9' || strings.IndexByte(tokenPunct, b) >= 0) {
+				tok = false
+			}
+		}
+		switch {
+		case k == "?malformed":
+			add("trailer-frame-malformed-line", cls, fmt.Sprintf("the gRPC-web trailer frame has a line without a colon: %+q", o.MDTrl[k]))
+		case !tok:
+			add("trailer-frame-malformed-key", cls, fmt.Sprintf("the gRPC-web trailer frame has the key %+q, which is not a lower-case header name (keys: %+q)", k, o.WebKeys))
+		case !allowed[k]:
+			add("trailer-frame-unknown-key", cls, fmt.Sprintf("the gRPC-web trailer frame has the key %+q=%+q, which is neither a status key nor trailer metadata of the handler (keys: %+q)", k, o.MDTrl[k], o.WebKeys))
+		}
+	}
+}
+
 // hopKeys are the connection-specific request headers that must never be
 // incoming metadata.
 var hopKeys = []string{"connection", "keep-alive", "proxy-connection", "transfer-encoding", "upgrade"}
@@ -203,6 +237,7 @@ func check14(c *Case, o *Obs, rec Rec) (vs []viol, inconclusive string) {
 				add("incoming-value", h.valueClass(), fmt.Sprintf("request header %+q sent as %+q reached the handler as %s, want %s", h.Name, h.wire(), showVals(gb), showVals(h.Vals)))
 			}
 		}
+		strictTrailerFrame(c, o, add)
 		// connection-specific headers of the client's HTTP/1 connection (RFC
 		// 9110 7.6.1, forbidden in HTTP/2 by RFC 9113 8.2.2) are not metadata
 		for _, k := range hopKeys {
@@ -268,6 +303,7 @@ func check14(c *Case, o *Obs, rec Rec) (vs []viol, inconclusive string) {
 	// A gRPC-web body whose framing is broken (C05's finding for the text
 	// mode) hides the trailer frame: status and trailers are unobservable.
 	blind := web && o.WebErr != ""
+	strictTrailerFrame(c, o, add)
 
 	// 2. the real outcome is unchanged
 	switch {
@@ -534,6 +570,9 @@ func genOutSet(rng *rand.Rand, n int, used map[string]bool) []KV {
 	return out
 }
 
+// gzipCapable: protocols with per-message grpc-encoding.
+func gzipCapable(proto string) bool { return strings.HasPrefix(proto, "grpc") }
+
 type c14Runner struct {
 	r      *mon.Run
 	env    *Env
@@ -588,7 +627,7 @@ func (g *c14Runner) exec(c *Case) {
 			r.Count("response_header_keys_checked", len(c.Script.Hdr))
 			r.Count("response_trailer_keys_checked", len(c.Script.Trl)+len(c.Script.TrlLate))
 			r.Distinct(fmt.Sprintf("out/"+c.Target+":%s/%s/%s/%s/hdr=%d,send=%v/trl=%d+%d/late-hdr=%d/%s", protoFamily(c.Proto), c.Codec, c.Method, outcomeClass(c, rec),
-				min(len(c.Script.Hdr), 2), c.Script.SendHdr, min(len(c.Script.Trl), 2), min(len(c.Script.TrlLate), 2), min(len(c.Script.HdrLate), 1), c.Class))
+				min(len(c.Script.Hdr), 2), c.Script.SendHdr, min(len(c.Script.Trl), 2), min(len(c.Script.TrlLate), 2), min(len(c.Script.HdrLate), 1), c.Class+fmt.Sprintf("/gzip=%v", c.Gzip)))
 		}
 	}
 	for _, v := range vs {
@@ -629,6 +668,7 @@ func (g *c14Runner) inCase(proto, method string, hdrs []HdrSpec, class string) {
 	}
 	c := &Case{Kind: "C14in", Proto: proto, Codec: codec, Method: method, ReqHdr: hdrs, Class: class, Target: g.target,
 		Script: Script{Replies: 1}, Hop: g.hop}
+	c.Gzip = gzipCapable(proto) && g.rng.Intn(3) == 0
 	g.exec(c)
 }
 
@@ -659,7 +699,7 @@ func (g *c14Runner) binSweep(proto string, wide bool, vals [][]byte, class strin
 
 // RunC14 is the metadata fidelity check.
 func RunC14(r *mon.Run) {
-	r.Rule = "(in) requests carrying 1-6 custom headers (names over the HTTP token alphabet in mixed case, 1-3 values, '-bin' names with every byte string of length 0-1 (thorough: 0-2) plus boundary/random strings of length 3..500, each sent as padded and as unpadded base64) on HTTP transcoding, raw gRPC (in-process, h2c), grpc-go, gRPC-web binary/text (in-process, HTTP/1 socket) and the WebSocket handshake, plus a class that adds hop-by-hop headers (Connection, Keep-Alive, Proxy-Connection) on the HTTP/1 fronts, which must not become metadata, with the handler registered on the mux and with the same handler on a grpc.Server back-end proxied through RegisterConn; the handler's metadata.FromIncomingContext is compared with what was sent. (out) a scripted handler sets 0-4 header keys (SetHeader or SendHeader) and 0-4 trailer keys before / after its first reply, optionally one protocol-reserved key with a forged value, optionally keeps mutating / re-using the metadata.MD object it passed in (values overwritten in place, slices replaced, keys added, keys deleted, header MD refilled and passed to SetTrailer), then succeeds or fails before / after the first reply; the client (HTTP response headers, grpc-go Header/Trailer call options, gRPC-web headers + trailer frame) must see every non-reserved key with the values it had at the time of the call, byte-equal, no key added later, never the forged value, and the handler's real status. Non-trivial = the scripted handler ran; distinct = (direction, protocol, codec, method, name/value class | outcome, header/trailer set shape, reserved key)"
+	r.Rule = "(in) requests carrying 1-6 custom headers (names over the HTTP token alphabet in mixed case, 1-3 values, '-bin' names with every byte string of length 0-1 (thorough: 0-2) plus boundary/random strings of length 3..500, each sent as padded and as unpadded base64) on HTTP transcoding, raw gRPC (in-process, h2c), grpc-go, gRPC-web binary/text (in-process, HTTP/1 socket) and the WebSocket handshake, plus a class that adds hop-by-hop headers (Connection, Keep-Alive, Proxy-Connection) on the HTTP/1 fronts, which must not become metadata, with the handler registered on the mux and with the same handler on a grpc.Server back-end proxied through RegisterConn; the handler's metadata.FromIncomingContext is compared with what was sent. (out) a scripted handler sets 0-4 header keys (SetHeader or SendHeader) and 0-4 trailer keys before / after its first reply, optionally one protocol-reserved key with a forged value, optionally with gzip-compressed messages (grpc-encoding, compressed and plain calls interleaved on the same mux), optionally keeps mutating / re-using the metadata.MD object it passed in (values overwritten in place, slices replaced, keys added, keys deleted, header MD refilled and passed to SetTrailer), then succeeds or fails before / after the first reply; the client (HTTP response headers, grpc-go Header/Trailer call options, gRPC-web headers + trailer frame) must see every non-reserved key with the values it had at the time of the call, byte-equal, no key added later, never the forged value, and the handler's real status; the gRPC-web trailer frame is checked strictly (every line key: value, lower-case token keys, no key beyond the status keys and the handler's trailer keys). Non-trivial = the scripted handler ran; distinct = (direction, protocol, codec, method, name/value class | outcome, header/trailer set shape, reserved key)"
 	r.Floor = 120
 	env, err := newEnv()
 	if err != nil {
@@ -814,6 +854,7 @@ func RunC14(r *mon.Run) {
 						c.Script.Replies = 1
 					}
 				}
+				c.Gzip = gzipCapable(v.proto) && rng.Intn(3) == 0
 				return c
 			}
 			// random custom sets
@@ -858,6 +899,25 @@ func RunC14(r *mon.Run) {
 						if v.method != "Echo" && oc.replies > 0 && rng.Intn(2) == 0 {
 							c.Script.TrlLate = genOutSet(rng, 1+rng.Intn(2), used)
 						}
+						g.exec(c)
+					}
+				}
+			}
+			// compressed and plain calls alternate on the same mux; trailer keys
+			// that sort before and after the status keys
+			if gzipCapable(v.proto) {
+				for i, n := 0, r.Pick(6, 40); i < n; i++ {
+					for _, gz := range []bool{true, false, false} {
+						oc := outcomes[(i+1)%len(outcomes)]
+						if v.method == "Echo" && oc.replies > 0 && oc.code != 0 {
+							oc.replies = 0
+						}
+						c := mk(oc)
+						c.Gzip = gz
+						c.Class = "gzip-interleaved"
+						used := map[string]bool{}
+						c.Script.Hdr = genOutSet(rng, 1, used)
+						c.Script.Trl = append(genOutSet(rng, 1+rng.Intn(2), used), KV{K: "a-first", V: [][]byte{[]byte("sorts before grpc-status")}})
 						g.exec(c)
 					}
 				}
